@@ -76,6 +76,11 @@ theorem tree_conditional_marks_reviewed : Gen.conditionalMarks = reviewedConditi
 /-- The shard function of the engine is the model's: 16 shards, FNV-1a 64 (`get_shard_index`). -/
 theorem tree_shard_function : Gen.shardConsts = (16, fnvOffset, fnvPrime) := by decide
 
+/-- Keys are binary safe on the WATCH path: handle_watch, handle_unwatch and Server::handle_exec pass the bytes of the
+    frame to register_watch / unregister_watch / was_modified_since without any text conversion (a lossy UTF-8
+    round trip would make the connection watch another key than the one it named). -/
+theorem tree_watch_key_is_bytes : Gen.watchKeyIsBytes = true := by decide
+
 /-- The watch list of the current tree is the prescribed one: entries are keyed by (database, key) and checked /
     unregistered there (3ed7039), a second WATCH keeps the first baseline (180a098), WATCH drops an expired stored
     value before it registers (cf01a0f).  A regression of any of the three breaks this theorem. -/
